@@ -11,7 +11,7 @@ import PynencModel.Model.Json
              cid.batch <nc> {<k> <v>}* <no> {<k> <v>}*
              cid.batchcall <np> {<name> <default|->}* <nc> {<k> <v>}* <no> {<k> <v>}*
   store      cds.new <disabled> <min> <max> <cache> | cds.obj <addr> <ser> <sha> <str|-> | cds.ser <addr> <disable>
-             cds.res <data> | cds.purge | cds.fpurge | cds.fres <data> | cds.dis <key> {<name>}*
+             cds.res <data> | cds.serf <addr> | cds.purge | cds.fpurge | cds.fres <data> | cds.dis <key> {<name>}*
   json       json.builtins {<name>}* | json.class <mod> <qual> <exc|obj|enum0|enum1> <members tree>
              json.enc <tree> | json.recon <tree> | json.rt <tree> | json.wf <tree>
   Strings are tokens of `Proto` (`x<hex utf-8>`, `e`, `-`); trees use the one-token syntax of `parseVal`.
@@ -369,6 +369,17 @@ def handle (w : St) : List String → Option (St × String)
           | some data => "ok " ++ tokS data
           | none => "err keyerror")
     | _, _ => (w, "bad-op")
+  | ["cds.serf", addr] => some <|
+    match addr.toNat? with
+    | some a =>
+      if (AMap.get? w.heap a).isNone then (w, "bad-op")
+      else
+        let (st, r) := CDS.serializeFault w.ser w.asStr w.hash w.conf w.store (.caller a)
+        ({ w with store := st }, match r with
+          | some (some data) => "ok " ++ tokS data
+          | some none => "err keyerror"
+          | none => "err storefault")
+    | none => (w, "bad-op")
   | ["cds.res", data] => some <|
     match str? data with
     | some d =>
